@@ -228,6 +228,29 @@ def l3_registration(F, R, M, lay, roles):
                 if x[0] == 'load0' and x[1][2] and x[1][2][-1][0] == 'f':
                     off_f = x[1][2][-1][1]
             sig[vn] = (dma_f, off_f)
+            # value: region base (+ the area's offset), nothing else
+            BASE, OFF = 0x40000000, 0x2340
+
+            def leaf(t):
+                if t[0] == 'call' and F.bodies.get(t[2], {}).get('impl_adt') == M.dma_adt and t[2].endswith('::paddr'):
+                    return BASE
+                if t[0] == 'load0' and t[1][2] and t[1][2][-1][0] == 'f':
+                    return OFF
+                raise Unfoldable(fmt(t)[:80])
+            try:
+                if kind == 'paddr':
+                    got = Folder(leaf).ev(r)
+                else:
+                    vc = [x for x in subterms(r) if x[0] == 'call' and F.bodies.get(x[2], {}).get('impl_adt') == M.dma_adt and len(x[3]) > 1]
+                    got = BASE + Folder(leaf).ev(vc[0][3][1]) if vc else None
+            except Unfoldable as e:
+                R.abstain('L3', '%s:%s:value' % (b['id'], vn), 'cannot fold accessor value: %s' % e, fn_site(F, b['id']))
+                continue
+            want = BASE + (OFF if off_f else 0)
+            R.tables += 1
+            R.check(got == want, 'L3', '%s:%s:value' % (b['name'], vn), fn_site(F, b['id']), 'address = region base%s' % (' + `%s`' % off_f if off_f else ''),
+                    'area address is not region base%s: with base %#x and offset %#x the accessor yields %s' % (
+                        ' + `%s`' % off_f if off_f else '', BASE, OFF, hex(got) if isinstance(got, int) else got))
         sigs[b['id']] = (kind, sig)
     # classify accessors into area roles
     def area_of(sig):
